@@ -207,13 +207,23 @@ class Session:
         self.flushed_at_stop = False
         self.obj = self._make()
 
+    def _redirect_kw(self):
+        """Which of the two streams the display redirects (both by default; a program may keep one for itself)."""
+        r = self.cfg.get("redirect", "both")
+        if r == "both":
+            return {}
+        return {"redirect_stdout": r == "stdout", "redirect_stderr": r == "stderr"}
+
+    def _redirected(self, name):
+        return self.kind == "status" or self.cfg.get("redirect", "both") in ("both", name)
+
     def _make(self):
         from rich.live import Live
         from rich.progress import Progress
         from rich.status import Status
         if self.kind == "live":
             return Live(self._frame_obj([]), console=self.console, auto_refresh=False,
-                        transient=self.cfg["transient"], vertical_overflow=self.cfg["overflow"])
+                        transient=self.cfg["transient"], vertical_overflow=self.cfg["overflow"], **self._redirect_kw())
         if self.kind == "progress":
             cols = ()
             if self.flaky:
@@ -228,7 +238,7 @@ class Session:
                         return Text("c%d" % task.id)
                 cols = (TextColumn("{task.description}"), BarColumn(bar_width=10), FlakyColumn())
             return Progress(*cols, console=self.console, auto_refresh=False, transient=self.cfg["transient"],
-                            get_time=self.clock)
+                            get_time=self.clock, **self._redirect_kw())
         st = Status("s0", console=self.console)
         st._live.auto_refresh = False
         return st
@@ -323,12 +333,12 @@ class Session:
             # a fragment without a line end (print(..., end="")): it waits in the redirect until its line is
             # completed, or until the display stops
             stream = sys.stdout if op[2] == "stdout" else sys.stderr
-            if self.live_on():
+            if self.live_on() and self._redirected(op[2]):
                 stream.write(op[1])
                 self.pending[op[2]] = self.pending.get(op[2], "") + op[1]
         elif k == "pyprint":
             stream = sys.stdout if op[2] == "stdout" else sys.stderr
-            if self.live_on():
+            if self.live_on() and self._redirected(op[2]):
                 stream.write(op[1] + "\n")
                 self.printed.append(self.pending.pop(op[2], "") + op[1])
                 self._drew()
@@ -471,7 +481,8 @@ def wl_histories(ctx, rng, case_no):
     kind = rng.choice(["live", "live", "progress", "status"])
     cfg = {"size_source": rng.choice(["args", "args", "width+detected", "detected"]),
            "width": rng.choice([20, 40, 60, 100]), "height": rng.choice([3, 4, 6, 8, 12]),
-           "transient": rng.random() < 0.4, "overflow": rng.choice(["crop", "ellipsis", "ellipsis", "visible"])}
+           "transient": rng.random() < 0.4, "overflow": rng.choice(["crop", "ellipsis", "ellipsis", "visible"]),
+           "redirect": rng.choice(["both", "both", "both", "stdout", "stderr"])}
     ops = [["start"]] + gen_history(rng, kind, cfg["height"], rng.choice([5, 12, 25, 40])) + [["stop"]]
     saved = (sys.stdout, sys.stderr)
     log = []
